@@ -34,6 +34,7 @@ type settleTracker struct {
 	await map[awaitKey]awaitEntry
 	// per-event context, recomputed by advance()
 	seizedV1, seizedV2, settledV1, settledV2, esmHandBackV2 int
+	esmHandBackPaidV2                                           int // hand-backs of auctions that had received bids
 	// extraV2[product] = sum over generation-2 settlements of this event of
 	// (total debt recorded at seizure - principal): interest + closing fee
 	extraV2 map[uint64]*big.Int
@@ -50,7 +51,7 @@ type seizure struct {
 func newSettleTracker() *settleTracker { return &settleTracker{await: map[awaitKey]awaitEntry{}} }
 
 func (s *settleTracker) advance(pre, post *cdpSnap) {
-	s.seizedV1, s.seizedV2, s.settledV1, s.settledV2, s.esmHandBackV2 = 0, 0, 0, 0, 0
+	s.seizedV1, s.seizedV2, s.settledV1, s.settledV2, s.esmHandBackV2, s.esmHandBackPaidV2 = 0, 0, 0, 0, 0, 0
 	s.extraV2 = map[uint64]*big.Int{}
 	s.seized = nil
 	for id, lv := range post.LockedV1 {
@@ -99,6 +100,11 @@ func (s *settleTracker) advance(pre, post *cdpSnap) {
 				if lv, ok := pre.LockedV2[k.ID]; ok && pre.ESM[lv.AppId].Status && post.Height != pre.Height {
 					// the app is in emergency shutdown and no bid closed the auction: the seized vault is handed back
 					s.esmHandBackV2++
+					for _, a := range pre.AucV2 {
+						if a.LockedVaultId == k.ID && len(a.BiddingIds) > 0 {
+							s.esmHandBackPaidV2++
+						}
+					}
 				} else {
 					s.settledV2++
 				}
